@@ -103,7 +103,9 @@ func (a *ConstFuncParamAnnotator) VisitFuncCall(call *ast.FuncCall) ast.VisitRes
 
 	currentParams := maps.Keys(a.currentParams)
 	for _, param := range call.Func.Parameters {
-		if isConst[param.Name.Literal] {
+		// a reference parameter only counts as const while its function is still being analysed
+		// (e.g. in a recursive call), so an argument passed as reference is always treated as mutated
+		if isConst[param.Name.Literal] && !param.Type.IsReference {
 			continue
 		}
 
